@@ -22,8 +22,8 @@ ASSUMPTIONS = [
     "lines of one list hold disjoint groups of the sorted set (the canonical way devices print long lists)",
 ]
 EXHAUSTIVE = {"quick": True, "thorough": False}
-FLOORS = {"quick": {"patches_simulated": 20000, "commands_parsed": 20000, "multi_line_cases": 10000, "helper_roundtrips": 2000},
-          "thorough": {"patches_simulated": 600000, "commands_parsed": 600000, "multi_line_cases": 300000, "helper_roundtrips": 50000}}
+FLOORS = {"quick": {"patches_simulated": 20000, "commands_parsed": 20000, "multi_line_cases": 10000, "helper_roundtrips": 2000, "block_cases": 10000, "block_cases_with_changed_blocks": 5000},
+          "thorough": {"patches_simulated": 600000, "commands_parsed": 600000, "multi_line_cases": 300000, "helper_roundtrips": 50000, "block_cases": 300000, "block_cases_with_changed_blocks": 150000}}
 U_QUICK = [2, 3, 4, 7, 8]
 U_THOROUGH = [2, 3, 4, 7, 8, 10, 11, 20]
 
@@ -47,6 +47,9 @@ def plan(tier, seed):
     for kind in KINDS:
         for k in range(per):
             specs.append({"mode": "kind", "tier": tier, "seed": seed, "kind": kind, "shard": k, "nshards": per})
+    for kind in BLOCK_KINDS:
+        for k in range(per):
+            specs.append({"mode": "blocks", "tier": tier, "seed": seed, "kind": kind, "shard": k, "nshards": per})
     specs.append({"mode": "helpers", "tier": tier, "seed": seed})
     return specs
 
@@ -241,6 +244,183 @@ def run_kind(spec, acc):
     acc.sample({"kind": kind, "universe": U, "example_old_lines": lines_for([[2, 3], [7]], KINDS[kind][2], KINDS[kind][3])})
 
 
+# ---- VLAN lists together with per-VLAN blocks --------------------------------------------------------------
+BLOCK_KINDS = {
+    # kind: (model, list prefix, syntax, negation word)
+    "huawei-batch+blocks": ("Huawei CE6870", "vlan batch", "huawei"),
+    "huawei-quidway-batch+blocks": ("Huawei Quidway S5300", "vlan batch", "huawei"),
+    "cisco-catalyst-vlan+blocks": ("Cisco Catalyst 2960", "vlan", "cisco"),
+    "nexus-vlan+blocks": ("Cisco Nexus 9316", "vlan", "cisco"),
+}
+
+
+def gen_side(rng, kind, U):
+    """-> (groups of the list lines, {vlan: [child rows]})"""
+    syntax = BLOCK_KINDS[kind][2]
+    listed = sorted(u for u in U if rng.random() < 0.5)
+    blocks = {}
+    for u in rng.sample(U, rng.randint(0, 2)):
+        ch = ["name v%d%s" % (u, rng.choice(["", "x"]))]
+        if syntax == "huawei" and rng.random() < 0.25:
+            ch = []  # a bare `vlan N` line
+        blocks[u] = ch
+    if "catalyst" in kind:
+        listed = [u for u in listed if u not in blocks]  # Catalysts do not repeat in the list the VLANs that have a block of their own
+    else:
+        listed = sorted(set(listed) | set(blocks))       # Huawei / Nexus print every VLAN in the list, and a block for those with options
+    sp = list(splittings(listed, 2 if syntax == "cisco" else 3))
+    groups = rng.choice(sp) if sp else []
+    return groups, blocks
+
+
+def no_row_collision(side, syntax, other_blocks=()):
+    """a list line holding exactly one VLAN that also has a block would be the same row as the block header (`vlan 4`): merge such a
+    group into a neighbour, or drop the block when it is the only group"""
+    groups, blocks = [list(g) for g in side[0]], dict(side[1])
+    if syntax != "cisco":
+        return groups, blocks
+    changed = True
+    while changed:
+        changed = False
+        for i, g in enumerate(groups):
+            if len(g) == 1 and (g[0] in blocks or g[0] in other_blocks):
+                if len(groups) > 1:
+                    j = i - 1 if i > 0 else i + 1
+                    groups[j] = sorted(groups[j] + g)
+                    del groups[i]
+                elif g[0] in blocks and g[0] not in other_blocks:
+                    del blocks[g[0]]
+                else:
+                    return None
+                changed = True
+                break
+    return groups, blocks
+
+
+def check_blocks_case(kind, old_side, new_side, acc):
+    """effective VLAN set = VLANs of the list lines + VLANs with a block; fold the emitted commands over it"""
+    from annet.api import _diff_and_patch
+    from annet.annlib.netdev.views.hardware import HardwareView
+    from annet.vendors import registry_connector
+    model, prefix, syntax = BLOCK_KINDS[kind]
+    hw = HardwareView(model, "")
+    v = registry_connector.get().match(hw)
+    fmt = v.make_formatter()
+    neg = v.reverse
+
+    def tree(side):
+        groups, blocks = side
+        t = odict()
+        for ln in lines_for(groups, prefix, syntax):
+            t[ln] = odict()
+        for n in sorted(blocks):
+            t["vlan %d" % n] = odict((c, odict()) for c in blocks[n])
+        return t
+
+    def eff(side):
+        return set(e for g in side[0] for e in g) | set(side[1])
+    S_old, S_new = eff(old_side), eff(new_side)
+    w = {"blocks": True, "kind": kind, "model": model, "old_side": [old_side[0], {str(k): v_ for k, v_ in old_side[1].items()}],
+         "new_side": [new_side[0], {str(k): v_ for k, v_ in new_side[1].items()}], "old_lines": list(tree(old_side)), "new_lines": list(tree(new_side))}
+    try:
+        _, patch = _diff_and_patch(c01.Dev(hw), tree(old_side), tree(new_side), None, None, False)
+        cmds = [tuple(p) for p in fmt.cmd_paths(patch)]
+    except Exception as e:
+        acc.violation("C11/%s/exception-%s" % (kind, type(e).__name__), "patch computation raised on a VLAN list change", dict(w, error=repr(e)[:300]))
+        return
+    acc.count("patches_simulated")
+    acc.count("block_cases")
+    if old_side[1] != new_side[1]:
+        acc.count("block_cases_with_changed_blocks")
+    acc.case([kind, w["old_side"], w["new_side"]], nontrivial=(S_old != S_new or old_side[1] != new_side[1]))
+    w["commands"] = [list(p) for p in cmds]
+    S = set(S_old)
+    children = {n: list(ch) for n, ch in old_side[1].items()}
+    keep = S_old & S_new
+    syn = "cisco" if syntax == "cisco" else "huawei"
+    for p in cmds:
+        cmd = p[-1]
+        if len(p) == 1:
+            m_blk = re.fullmatch(r"vlan (\d+)", cmd)
+            m_unblk = re.fullmatch(re.escape(neg) + r" vlan (\d+)", cmd)
+            act = None
+            if syntax == "huawei" and m_blk:
+                act = ("add", {int(m_blk.group(1))})
+            elif syntax == "huawei" and m_unblk:
+                act = ("remove", {int(m_unblk.group(1))})
+            else:
+                act = read_command(cmd, prefix, syntax, neg)
+            if act is None:
+                continue
+            acc.count("commands_parsed")
+            a, vs = act
+            if a == "add":
+                S |= vs
+            elif a == "remove":
+                S -= vs
+                for n in vs:
+                    children.pop(n, None)
+            elif a in ("remove_all", "none"):
+                S = set()
+                children = {}
+            if not keep <= S:
+                acc.violation("C11/%s/removes-common-vlans" % kind, "a VLAN present in both the old and the new set is removed (at least transiently) by the emitted commands",
+                              dict(w, lost=sorted(keep - S), after_command=cmd))
+                return
+        elif len(p) == 2 and re.fullmatch(r"vlan \d+", p[0]):
+            n = int(p[0].split()[1])
+            if cmd in (v.exit,):
+                continue
+            cur = children.setdefault(n, [])
+            if cmd.startswith(neg + " "):
+                word = cmd[len(neg) + 1:].split()[0]
+                cur[:] = [c for c in cur if c.split()[0] != word]
+            else:
+                cur[:] = [c for c in cur if c.split()[0] != cmd.split()[0]] + [cmd]
+    if S != S_new:
+        acc.violation("C11/%s/final-set-wrong" % kind, "executing the emitted add/remove commands on the old VLAN set does not yield the new set",
+                      dict(w, got=sorted(S), expected=sorted(S_new)))
+        return
+    for n in sorted(S_new):
+        want = new_side[1].get(n, [])
+        if sorted(children.get(n, [])) != sorted(want):
+            acc.violation("C11/%s/vlan-block-content-wrong" % kind, "after the patch a VLAN's own block does not hold the desired lines",
+                          dict(w, vlan=n, got=children.get(n, []), expected=want))
+            return
+
+
+def run_blocks(spec, acc):
+    kind, tier = spec["kind"], spec["tier"]
+    rng = random.Random("C11/blocks/%s/%s/%s" % (spec["seed"], kind, spec["shard"]))
+    U = U_QUICK
+    for j in range((4000 if tier == "quick" else 120000) // spec["nshards"]):
+        o = gen_side(rng, kind, U)
+        if rng.random() < 0.5:
+            # derived: move VLANs between the list and blocks, drop / add a few
+            groups, blocks = [list(g) for g in o[0]], {k: list(v) for k, v in o[1].items()}
+            n = gen_side(rng, kind, U)
+            keepb = {k: v for k, v in blocks.items() if rng.random() < 0.5}
+            n = (n[0], {**n[1], **keepb})
+            if "catalyst" in kind:
+                n = ([[e for e in g if e not in n[1]] for g in n[0]], n[1])
+                n = ([g for g in n[0] if g], n[1])
+            else:
+                missing = sorted(set(n[1]) - set(e for g in n[0] for e in g))
+                if missing:
+                    n = (n[0] + [missing], n[1])
+        else:
+            n = gen_side(rng, kind, U)
+        syn = BLOCK_KINDS[kind][2]
+        o2 = no_row_collision(o, syn, n[1])
+        n2 = no_row_collision(n, syn, (o2 or o)[1])
+        o2 = o2 and n2 and no_row_collision(o2, syn, n2[1])
+        if not o2 or not n2:
+            acc.count("block_cases_skipped_row_collision")
+            continue
+        check_blocks_case(kind, o2, n2, acc)
+    acc.sample({"kind": kind, "example": gen_side(rng, kind, U)[0]})
+
+
 def run_helpers(spec, acc):
     from annet.annlib import lib
     rng = random.Random("C11/helpers/%s" % spec["seed"])
@@ -280,8 +460,14 @@ def run_shard(spec, acc):
         w = spec["witness"]
         if w.get("helpers"):
             return run_helpers({"tier": "quick", "seed": 0}, acc)
+        if w.get("blocks"):
+            back = lambda side: (side[0], {int(k): v for k, v in side[1].items()})
+            check_blocks_case(w["kind"], back(w["old_side"]), back(w["new_side"]), acc)
+            return
         check_case(w["kind"], w["old_groups"], w["new_groups"], acc)
         return
+    if spec["mode"] == "blocks":
+        return run_blocks(spec, acc)
     if spec["mode"] == "helpers":
         return run_helpers(spec, acc)
     run_kind(spec, acc)
